@@ -228,6 +228,8 @@ def check_scans(ctx, kinds=('lower', 'higher', 'closest'), fill_true_only=False,
                 bad.append(f"{e.data.get('name') or getattr(e.data.get('callee'), 'name', e.kind)} called inside the scan at line {getattr(e.node, 'lineno', '?')}")
         ctx.check(not bad, 'C10.2', f"{kind}: element values flow only into comparisons; stored indices are built from counters only", f"{bad[:4]}",
                   fi.loc(), fi.qualname, f"{kind}:taint")
+        from .. import dtypes
+        dtypes.check_events(ctx, m.ev, 'C10.2', f"{kind} scan", fi)      # queries / elements are compared as given: no cast to a borrowed element type
         if prove:
             prove_scan(ctx, m, kind, fi)
         ctx.sample({'rule': 'C10.3', 'scan': kind, 'prefix': str(Pf['cond']), 'advance': str(Ad['cond']),
